@@ -125,6 +125,9 @@ def _hook(label, nm, asyn):
 def _eq_variant(cls, kind):
     """Listener classes whose instances are unhashable (like a dataclass with eq=True) or all
     compare equal: attaching them must work like attaching any other object."""
+    if kind == "falsy":
+        # collection-like listener, empty (falsy) when it is attached
+        return type(cls.__name__, (cls,), {"__len__": lambda self: 0})
     ns = {"__eq__": lambda self, other: isinstance(other, type(self).__mro__[1])}
     ns["__hash__"] = None if kind == "unhashable" else (lambda self: 1)
     return type(cls.__name__, (cls,), ns)
@@ -633,7 +636,9 @@ def worker(block):
                                      (2, True, True, False, None), (1, True, False, True, None),
                                      (0, False, False, False, "unhashable"),
                                      (0, False, True, False, "equal"),
-                                     (2, False, False, False, "equal")]
+                                     (2, False, False, False, "equal"),
+                                     (0, False, False, False, "falsy"),
+                                     (1, True, False, False, "falsy")]
                     variants = [v + (None,) for v in variants]
                     if cfg.engine == "async" and len(dist) == 1:
                         # mixed listeners: only one of the constructor listeners is a coroutine
